@@ -86,16 +86,16 @@ Proof. destruct l; cbn; split; intros; try reflexivity; discriminate. Qed.
 
 Definition answer (x : outcome * watched) : outcome := fst x.
 
-Lemma first_request_responds p st r :
+Lemma first_request_responds st r :
   r_err r = None -> should_unsubscribe r = false -> r_nonce r = 0 ->
-  should_respond p st r = (Resp true [], new_watched_resource st (r_ty r) (r_names r)).
+  should_respond st r = (Resp true [], new_watched_resource st (r_ty r) (r_names r)).
 Proof.
   intros He Hu Hn. unfold should_respond. rewrite He, Hu, Hn. cbn. destruct (st (r_ty r)); reflexivity.
 Qed.
 
-Lemma reconnect_responds p st r :
+Lemma reconnect_responds st r :
   r_err r = None -> should_unsubscribe r = false -> st (r_ty r) = None ->
-  should_respond p st r = (Resp true [], new_watched_resource st (r_ty r) (r_names r)).
+  should_respond st r = (Resp true [], new_watched_resource st (r_ty r) (r_names r)).
 Proof. intros He Hu Hs. unfold should_respond. rewrite He, Hu, Hs. reflexivity. Qed.
 
 Lemma new_watched_has_names st t ns :
@@ -109,41 +109,41 @@ Proof.
     destruct (st EDS); [rewrite upd_other by discriminate|]; rewrite upd_same; eexists; repeat split; reflexivity.
 Qed.
 
-Lemma stale_nonce_silent p st r w :
+Lemma stale_nonce_silent st r w :
   r_err r = None -> should_unsubscribe r = false -> st (r_ty r) = Some w ->
   r_nonce r <> 0 -> r_nonce r <> nonce_sent w ->
-  should_respond p st r = (Resp false [], st).
+  should_respond st r = (Resp false [], st).
 Proof.
   intros He Hu Hs Hn Hm. unfold should_respond. rewrite He, Hu, Hs.
   apply N.eqb_neq in Hn. apply N.eqb_neq in Hm. rewrite Hn, Hm. reflexivity.
 Qed.
 
 Lemma nack_silent st r m :
-  r_err r = Some m -> answer (should_respond NilIgnore st r) = Resp false [] /\
-  record (snd (should_respond NilIgnore st r)) (r_ty r) = record st (r_ty r).
+  r_err r = Some m -> answer (should_respond st r) = Resp false [] /\
+  record (snd (should_respond st r)) (r_ty r) = record st (r_ty r).
 Proof.
   intros He. unfold should_respond, nack, answer, record. rewrite He.
   destruct (st (r_ty r)) eqn:E; cbn; [rewrite upd_same|rewrite E]; auto.
 Qed.
 
-Lemma nack_silent_watched p st r m w :
+Lemma nack_silent_watched st r m w :
   r_err r = Some m -> st (r_ty r) = Some w ->
-  should_respond p st r = (Resp false [], upd st (r_ty r) (Some (set_err w m))).
+  should_respond st r = (Resp false [], upd st (r_ty r) (Some (set_err w m))).
 Proof. intros He Hs. unfold should_respond, nack. rewrite He, Hs. reflexivity. Qed.
 
-Lemma unsubscribe_deletes_watch p st r :
+Lemma unsubscribe_deletes_watch st r :
   r_err r = None -> should_unsubscribe r = true ->
-  answer (should_respond p st r) = Resp false [] /\ snd (should_respond p st r) (r_ty r) = None.
+  answer (should_respond st r) = Resp false [] /\ snd (should_respond st r) (r_ty r) = None.
 Proof.
   intros He Hu. unfold should_respond, answer. rewrite He, Hu. cbn. rewrite upd_same. auto.
 Qed.
 
-Lemma ack_silent p st r w :
+Lemma ack_silent st r w :
   r_err r = None -> should_unsubscribe r = false -> st (r_ty r) = Some w ->
   r_nonce r <> 0 -> r_nonce r = nonce_sent w -> always_respond w = false ->
   norm (r_names r) = names w ->
-  answer (should_respond p st r) = Resp false [] /\
-  record (snd (should_respond p st r)) (r_ty r) = names w.
+  answer (should_respond st r) = Resp false [] /\
+  record (snd (should_respond st r)) (r_ty r) = names w.
 Proof.
   intros He Hu Hs Hn Hm Ha Hnm. unfold should_respond, answer, record. rewrite He, Hu, Hs.
   apply N.eqb_neq in Hn. rewrite Hn. rewrite Hm, N.eqb_refl. cbn [negb].
@@ -151,25 +151,25 @@ Proof.
 Qed.
 
 (* the state after an ACK is again one in which the same ACK is silent: the exchange is over *)
-Lemma ack_silent_stable p st r w :
+Lemma ack_silent_stable st r w :
   r_err r = None -> should_unsubscribe r = false -> st (r_ty r) = Some w ->
   r_nonce r <> 0 -> r_nonce r = nonce_sent w -> always_respond w = false ->
   norm (r_names r) = names w ->
-  answer (should_respond p (snd (should_respond p st r)) r) = Resp false [].
+  answer (should_respond (snd (should_respond st r)) r) = Resp false [].
 Proof.
   intros He Hu Hs Hn Hm Ha Hnm.
-  assert (E : snd (should_respond p st r) (r_ty r) =
+  assert (E : snd (should_respond st r) (r_ty r) =
               Some (mkWr (names w) (wildcard w) (nonce_sent w) (r_nonce r) false 0)).
   { unfold should_respond. rewrite He, Hu, Hs. apply N.eqb_neq in Hn. rewrite Hn, Hm, N.eqb_refl. cbn [negb].
     rewrite Ha, Hnm, diff_self. cbn. rewrite upd_same. reflexivity. }
-  eapply (ack_silent p _ r) in E; auto. destruct E as [E _]. exact E.
+  eapply (ack_silent _ r) in E; auto. destruct E as [E _]. exact E.
 Qed.
 
-Lemma added_names_respond p st r w :
+Lemma added_names_respond st r w :
   r_err r = None -> should_unsubscribe r = false -> st (r_ty r) = Some w ->
   r_nonce r <> 0 -> r_nonce r = nonce_sent w -> diff (norm (r_names r)) (names w) <> [] ->
-  (exists s, answer (should_respond p st r) = Resp true s) /\
-  record (snd (should_respond p st r)) (r_ty r) = norm (r_names r).
+  (exists s, answer (should_respond st r) = Resp true s) /\
+  record (snd (should_respond st r)) (r_ty r) = norm (r_names r).
 Proof.
   intros He Hu Hs Hn Hm Hd. unfold should_respond, answer, record. rewrite He, Hu, Hs.
   apply N.eqb_neq in Hn. rewrite Hn, Hm, N.eqb_refl. cbn [negb].
@@ -181,25 +181,25 @@ Qed.
 
 (* ------------------------------------------------------------------ rows: delta *)
 
-Lemma delta_first_responds p st r :
+Lemma delta_first_responds st r :
   d_err r = None -> st (d_ty r) = None ->
-  answer (should_respond_delta p st r) = Resp true [].
+  answer (should_respond_delta st r) = Resp true [].
 Proof.
   intros He Hs. unfold should_respond_delta, answer. rewrite He, Hs.
   destruct (delta_watched_resources [] r) as [[res wc] ch]. reflexivity.
 Qed.
 
-Lemma delta_stale_silent p st r w :
+Lemma delta_stale_silent st r w :
   d_err r = None -> st (d_ty r) = Some w -> d_nonce r <> 0 -> d_nonce r <> nonce_sent w ->
-  should_respond_delta p st r = (Resp false [], st).
+  should_respond_delta st r = (Resp false [], st).
 Proof.
   intros He Hs Hn Hm. unfold should_respond_delta. rewrite He, Hs.
   apply N.eqb_neq in Hn. apply N.eqb_neq in Hm. rewrite Hn, Hm. reflexivity.
 Qed.
 
 Lemma delta_nack_silent st r m :
-  d_err r = Some m -> answer (should_respond_delta NilIgnore st r) = Resp false [] /\
-  record (snd (should_respond_delta NilIgnore st r)) (d_ty r) = record st (d_ty r).
+  d_err r = Some m -> answer (should_respond_delta st r) = Resp false [] /\
+  record (snd (should_respond_delta st r)) (d_ty r) = record st (d_ty r).
 Proof.
   intros He. unfold should_respond_delta, nack, answer, record. rewrite He.
   destruct (st (d_ty r)) eqn:E; cbn; [rewrite upd_same|rewrite E]; auto.
@@ -209,10 +209,10 @@ Lemma dwr_ins_nil acc : fold_left dwr_ins [] acc = acc.
 Proof. reflexivity. Qed.
 
 (* a pure ACK (no names) leaves the subscription alone and is silent *)
-Lemma delta_ack_silent p st r w :
+Lemma delta_ack_silent st r w :
   d_err r = None -> st (d_ty r) = Some w -> d_nonce r = nonce_sent w ->
   d_sub r = [] -> d_unsub r = [] -> d_init r = [] -> always_respond w = false ->
-  answer (should_respond_delta p st r) = Resp false [].
+  answer (should_respond_delta st r) = Resp false [].
 Proof.
   intros He Hs Hm H1 H2 H3 Ha. unfold should_respond_delta, answer. rewrite He, Hs, Hm, N.eqb_refl.
   rewrite andb_false_r. unfold delta_watched_resources. rewrite H1, H2, H3. cbn.
@@ -221,7 +221,7 @@ Qed.
 
 (* ------------------------------------------------------------------ totality / crash freedom *)
 
-Lemma step_ignore_no_crash st o : fst (step NilIgnore st o) <> Crash.
+Lemma step_no_crash st o : fst (step st o) <> Crash.
 Proof.
   destruct o as [r|r|t n ok|t n ok nn]; cbn; try discriminate.
   - unfold should_respond, nack. destruct (r_err r).
@@ -244,61 +244,25 @@ Proof.
       * destruct (delta_watched_resources [] r) as [[res wc] ch]. discriminate.
 Qed.
 
-Lemma run_ignore_no_crash ops : forall st, crashed (fst (run NilIgnore st ops)) = false.
+Lemma run_no_crash ops : forall st, crashed (fst (run st ops)) = false.
 Proof.
   induction ops as [|o ops IH]; intros st; cbn; [reflexivity|].
-  pose proof (step_ignore_no_crash st o) as Hc.
-  destruct (step NilIgnore st o) as [out st'] eqn:E. cbn in Hc.
+  pose proof (step_no_crash st o) as Hc.
+  destruct (step st o) as [out st'] eqn:E. cbn in Hc.
   destruct out; try contradiction.
-  - specialize (IH st'). destruct (run NilIgnore st' ops) as [outs st'']. cbn in *. exact IH.
-  - specialize (IH st'). destruct (run NilIgnore st' ops) as [outs st'']. cbn in *. exact IH.
+  - specialize (IH st'). destruct (run st' ops) as [outs st'']. cbn in *. exact IH.
+  - specialize (IH st'). destruct (run st' ops) as [outs st'']. cbn in *. exact IH.
 Qed.
 
 (* the run executes every op: as many outcomes as ops *)
-Lemma run_ignore_length ops : forall st, length (fst (run NilIgnore st ops)) = length ops.
+Lemma run_length ops : forall st, length (fst (run st ops)) = length ops.
 Proof.
   induction ops as [|o ops IH]; intros st; cbn; [reflexivity|].
-  pose proof (step_ignore_no_crash st o) as Hc.
-  destruct (step NilIgnore st o) as [out st'] eqn:E. cbn in Hc.
+  pose proof (step_no_crash st o) as Hc.
+  destruct (step st o) as [out st'] eqn:E. cbn in Hc.
   destruct out; try contradiction;
-    specialize (IH st'); destruct (run NilIgnore st' ops) as [outs st'']; cbn in *; f_equal; exact IH.
+    specialize (IH st'); destruct (run st' ops) as [outs st'']; cbn in *; f_equal; exact IH.
 Qed.
-
-Definition unwatched_nack (st : watched) (o : op) : Prop :=
-  match o with
-  | OReq r => r_err r <> None /\ st (r_ty r) = None
-  | ODReq r => d_err r <> None /\ st (d_ty r) = None
-  | _ => False
-  end.
-
-(* with the closure as it stands the ONLY crash is the NACK for an unwatched type *)
-Lemma step_crash_only_unwatched_nack st o :
-  fst (step NilCrash st o) = Crash -> unwatched_nack st o.
-Proof.
-  destruct o as [r|r|t n ok|t n ok nn]; cbn; try discriminate.
-  - unfold should_respond, nack. destruct (r_err r) eqn:He.
-    + destruct (st (r_ty r)); [discriminate|]. intros _. split; [discriminate|reflexivity].
-    + destruct (should_unsubscribe r); [discriminate|].
-      destruct (st (r_ty r)); [|discriminate].
-      destruct (r_nonce r =? 0); [discriminate|].
-      destruct (negb (r_nonce r =? nonce_sent w)); [discriminate|]. cbn.
-      destruct (always_respond w); [discriminate|].
-      destruct (is_nil _ && is_nil _); [discriminate|].
-      destruct (negb _ && is_nil _); discriminate.
-  - unfold should_respond_delta, nack. destruct (d_err r) eqn:He.
-    + destruct (st (d_ty r)); [discriminate|]. intros _. split; [discriminate|reflexivity].
-    + destruct (st (d_ty r)).
-      * destruct (negb _ && negb _); [discriminate|].
-        destruct (requires_names_mod (d_ty r) && wildcard w).
-        -- destruct (negb _); [|discriminate]. destruct (always_respond w); discriminate.
-        -- destruct (delta_watched_resources (names w) r) as [[res wc] ch].
-           destruct (negb ch); [|discriminate]. destruct (always_respond w); discriminate.
-      * destruct (delta_watched_resources [] r) as [[res wc] ch]. discriminate.
-Qed.
-
-Lemma total_refuted :
-  exists ops, crashed (fst (run NilCrash empty_watched ops)) = true.
-Proof. exists [OReq (mkReq CDS [] 1 (Some 1))]. vm_compute. reflexivity. Qed.
 
 (* ------------------------------------------------------------------ no loop: every answer has a cause *)
 
@@ -309,7 +273,7 @@ Proof.
 Qed.
 
 Lemma sotw_answer_has_cause st r :
-  responded (fst (should_respond NilIgnore st r)) = 1%nat -> req_cause st r <> None.
+  responded (fst (should_respond st r)) = 1%nat -> req_cause st r <> None.
 Proof.
   unfold should_respond, req_cause, nack. destruct (r_err r).
   - destruct (st (r_ty r)); cbn; discriminate.
@@ -323,7 +287,7 @@ Proof.
 Qed.
 
 Lemma delta_answer_has_cause st r :
-  responded (fst (should_respond_delta NilIgnore st r)) = 1%nat -> dreq_cause st r <> None.
+  responded (fst (should_respond_delta st r)) = 1%nat -> dreq_cause st r <> None.
 Proof.
   unfold should_respond_delta, dreq_cause, nack. destruct (d_err r).
   - destruct (st (d_ty r)); cbn; discriminate.
@@ -339,7 +303,7 @@ Proof.
 Qed.
 
 Lemma answer_has_cause st o :
-  responded (fst (step NilIgnore st o)) = 1%nat -> op_cause st o <> None.
+  responded (fst (step st o)) = 1%nat -> op_cause st o <> None.
 Proof.
   destruct o; cbn [step op_cause]; [apply sotw_answer_has_cause|apply delta_answer_has_cause| |]; cbn; discriminate.
 Qed.
@@ -352,12 +316,12 @@ Definition causes_total (c : counts) : nat :=
 
 Lemma count_step_bound st o c :
   (n_resp c <= causes_total c)%nat ->
-  (n_resp (count_step st o (fst (step NilIgnore st o)) c)
-   <= causes_total (count_step st o (fst (step NilIgnore st o)) c))%nat.
+  (n_resp (count_step st o (fst (step st o)) c)
+   <= causes_total (count_step st o (fst (step st o)) c))%nat.
 Proof.
   intros H. unfold count_step, causes_total in *. cbn.
-  pose proof (answer_has_cause st o) as Hc. pose proof (responded_le_1 (fst (step NilIgnore st o))) as Hle.
-  destruct (responded (fst (step NilIgnore st o))) as [|[|n]] eqn:E; [lia| |lia].
+  pose proof (answer_has_cause st o) as Hc. pose proof (responded_le_1 (fst (step st o))) as Hle.
+  destruct (responded (fst (step st o))) as [|[|n]] eqn:E; [lia| |lia].
   specialize (Hc eq_refl). destruct (op_cause st o) as [[]|]; [cbn; lia..|contradiction].
 Qed.
 
@@ -367,13 +331,13 @@ Lemma count_run_bound ops : forall st c,
 Proof.
   induction ops as [|o ops IH]; intros st c H; cbn; [exact H|].
   pose proof (count_step_bound st o c H) as Hs.
-  destruct (step NilIgnore st o) as [out st'] eqn:E. cbn in Hs. apply IH. exact Hs.
+  destruct (step st o) as [out st'] eqn:E. cbn in Hs. apply IH. exact Hs.
 Qed.
 
 (* a forced (warming) answer consumes the flag: it is one-shot *)
 Lemma forced_consumes_flag st r :
   req_cause st r = Some CForced ->
-  exists w', snd (should_respond NilIgnore st r) (r_ty r) = Some w' /\ always_respond w' = false.
+  exists w', snd (should_respond st r) (r_ty r) = Some w' /\ always_respond w' = false.
 Proof.
   unfold req_cause, should_respond. destruct (r_err r); [discriminate|].
   destruct (should_unsubscribe r); [discriminate|].
@@ -386,7 +350,7 @@ Qed.
 
 Lemma delta_forced_consumes_flag st r :
   dreq_cause st r = Some CForced ->
-  exists w', snd (should_respond_delta NilIgnore st r) (d_ty r) = Some w' /\ always_respond w' = false.
+  exists w', snd (should_respond_delta st r) (d_ty r) = Some w' /\ always_respond w' = false.
 Proof.
   unfold dreq_cause, should_respond_delta. destruct (d_err r); [discriminate|].
   destruct (st (d_ty r)) as [w|]; [|destruct (d_nonce r =? 0); discriminate].
